@@ -106,19 +106,23 @@ RunUnknownCase(unknown, pos, n, multi) ==
 \* an unknown operator whose node contributes nothing to the graph outputs (no outputs, only omitted outputs, an unused output):
 \* Run looks every node's operator up, so it is refused all the same
 SideOuts == {<<>>, <<"">>, <<"", "">>, <<"unused">>, <<"", "unused">>}
-SideUnknownCase(unknown, outs, pos) ==
+\* ... and whatever its input list names: a tensor that exists, one that never will, one produced only later, none at all
+SideIns == {<<"x">>, <<"nosuch">>, <<"x", "nosuch">>, <<"t2">>, <<>>, <<"">>}
+SideUnknownCaseI(unknown, outs, pos, sideins) ==
    LET chain == <<Nd("Relu", <<>>, <<"x">>, <<"t1">>), Nd("Relu", <<>>, <<"t1">>, <<"t2">>)>>
-       side == Nd(unknown, <<>>, <<"x">>, outs)
+       side == Nd(unknown, <<>>, sideins, outs)
        nodes == SubSeq(chain, 1, pos - 1) \o <<side>> \o SubSeq(chain, pos, 2)
        g == [nodes |-> nodes, inputs |-> <<InD("x", <<DFix(2), DFix(2)>>)>>, outputs |-> <<"t2">>, inits |-> <<>>]
        ins == [x |-> Iota("f32", <<2, 2>>, -1)]
        s == RunSem(g, ins)
    IN [prop |-> "C18", fam |-> "unknown_op", kind |-> "model", op |-> "", attrs |-> <<>>, inputs |-> <<>>, nout |-> 0, allowed |-> NoCrash, cmp |-> "num", known |-> <<>>,
-       feat |-> <<"side_node", "outs" \o ToString(Len(outs))>>,
+       feat |-> <<"side_node", "outs" \o ToString(Len(outs))>> \o (IF sideins = <<"x">> THEN <<>> ELSE <<"side_inputs_unresolved">>),
        x |-> [model |-> [nodes |-> g.nodes, inputs |-> g.inputs, outputs |-> g.outputs, inits |-> <<>>, opset |-> 13],
               \* the same call twice: the refusal does not wear off
               calls |-> [k \in 1..2 |-> [ins |-> ins, reuse |-> <<>>, allowed |-> IF s.ok THEN MustValue(s.out) ELSE MustErrorOf(SeqOfSet(s.errc))]],
               checks |-> <<"inputs_unchanged">>]]
+
+SideUnknownCase(unknown, outs, pos) == SideUnknownCaseI(unknown, outs, pos, <<"x">>)
 
 \* ---- the repository's sample files (two of them are not models at all) and seeded random byte strings
 Files == {"mlp.onnx", "gru.onnx", "ndm.onnx", "scaler.onnx", "mnist-8-opset13.onnx", "nt_1.zip"}
@@ -151,6 +155,7 @@ Emit ==
              /\ \A n \in 1..3 : \A pos \in 1..n : P(RunUnknownCase(st.u, pos, n, FALSE))
              /\ \A pos \in 2..3 : P(RunUnknownCase(st.u, pos, 3, TRUE))
              /\ \A outs \in SideOuts : \A pos \in 1..3 : P(SideUnknownCase(st.u, outs, pos))
+             /\ \A sideins \in SideIns \ {<<"x">>} : \A outs \in {<<>>, <<"unused">>} : \A pos \in 1..3 : P(SideUnknownCaseI(st.u, outs, pos, sideins))
    /\ st' = [st EXCEPT !.done = TRUE]
 Next == Emit
 Spec == Init /\ [][Next]_st
@@ -159,4 +164,5 @@ UnknownAlwaysRefused ==
    st.fam = "unknown" => \A n \in 1..3 : \A pos \in 1..n :
       /\ LET c == RunUnknownCase(st.u, pos, n, FALSE) IN c.x.calls[1].allowed = MustErrorOf(<<"UnsupportedOperator">>)
       /\ (pos <= 3 => \A outs \in SideOuts : SideUnknownCase(st.u, outs, pos).x.calls[1].allowed = MustErrorOf(<<"UnsupportedOperator">>))
+      /\ (pos <= 3 => \A sideins \in SideIns : SideUnknownCaseI(st.u, <<"unused">>, pos, sideins).x.calls[1].allowed = MustErrorOf(<<"UnsupportedOperator">>))
 =============================================================================
